@@ -241,6 +241,7 @@ func main() {
 	r.Floor("block.sign_cases", q(300, 15000))
 	r.Floor("block.verify_cases", q(300, 15000))
 	r.Floor("codec.roundtrip_cases", q(10000, 500000))
+	r.Floor("codec.tx64_cases", q(1500, 75000))
 	r.Floor("fuzz.cases", int64(pl.fuzzShards*pl.fuzzPerShard))
 	r.Floor("fuzz.accepted", q(8000, 400000))
 	r.Floor("fuzz.rejected", q(8000, 400000))
